@@ -136,6 +136,13 @@ let () =
         | ["custom"; t] ->
           let m = (match event_custom (parse_text t) [] with Some _ -> "K" | None -> "E") in
           (m, if String.trim impl_line = m then "oracle=ok" else "oracle=fail@custom-ctor")
+        | ["conv"; n1; n2] ->
+          (* every event handed to a connected sender, in order, each as its block; nothing ends the body before the
+             last sender is gone *)
+          let n = int_of_string n1 + int_of_string n2 in
+          let text i = List.map (fun c -> n_of_int (Char.code c)) (List.of_seq (String.to_seq ("e" ^ string_of_int i))) in
+          let m = tok_of_bytes (List.concat (List.init n (fun i -> encode_gen true (Message (text i))))) in
+          (m, if String.trim impl_line = m then "oracle=ok" else "oracle=fail@conversion-of-a-live-stream")
         | "stress" :: _ ->
           ("order=1 counts=1 terminated=1", if String.trim impl_line = "order=1 counts=1 terminated=1" then "oracle=ok" else "oracle=fail@stress")
         | _ -> ("?", "oracle=badcase") in
